@@ -155,6 +155,7 @@ class MasterSim(object):
         self.alloc_list = []
         self.blacklist = []
         self.parent_of = {}
+        self.announced = {}        # server -> capacity last announced by an admin event
 
         self._install_observers()
         self._build_world()
@@ -768,6 +769,8 @@ class MasterSim(object):
             cpu=spell_cpu(cap[1], style),
             disk=spell_mb(cap[2] * self.unit, style + 1))
         self.server_records[name]['cap'] = list(cap)
+        self.announced[name] = ref_vector(
+            zkutils.get_default(self.admin, z.path.server(name)) or {})
 
     def op_shave(self, idx, dim, delta):
         """A tiny downward resize of one dimension (a few MB / cpu units off
@@ -784,6 +787,7 @@ class MasterSim(object):
         masterapi.update_server_capacity(
             self.admin, name, memory='%dM' % cur[0], cpu='%d%%' % cur[1],
             disk='%dM' % cur[2])
+        self.announced[name] = list(cur)
         self.count('shaved')
 
     def op_repart(self, idx, part):
